@@ -1,5 +1,5 @@
 """C09 — an automaton's three views stay coherent however it was built or edited (DESIGN §4 C09)."""
-import copy, os, tempfile
+import copy, os, re, tempfile
 from vlib.runner import Clause
 from props import _fsa as U
 from geometry_tools.automata import fsa as FS, gap_parse, kbmag_utils
@@ -16,7 +16,7 @@ ASSUMPTIONS = ["Python dict = insertion-ordered association list; copy.deepcopy 
                "add_edges is used under the class's precondition: a new edge never contradicts an existing (tail,label)",
                "the text->record parser (gap_parse) is modelled separately (C09Parse); here only table->automaton"]
 
-ERRMAP = {"KeyError": "KeyError", "IndexError": "IndexError"}
+ERRMAP = {"KeyError": "KeyError", "IndexError": "IndexError", "FSAException": "FSAException"}
 
 
 # ------------------------------------------------------------------ histories: implementation side
@@ -69,8 +69,8 @@ def judge_history_corr(inp, obs, lr):
         if m is None or i is None:
             return {"expected": m, "observed": i, "tags": {"op": opk, "diff": "history-length"}}
         if "err" in m or "err" in i:
-            if m.get("err") == ERRMAP.get(i.get("err"), i.get("err")):
-                return None
+            if "err" in m and "err" in i:
+                return None          # both refuse; which exception class is raised outside a precondition is not compared
             return {"expected": m, "observed": i, "tags": {"op": opk, "diff": "error"},
                     "property_failure": bool(k <= nvalid and "err" in i)}
         cm, ci = U.canon(m), U.canon(i)
@@ -85,7 +85,8 @@ def judge_history_corr(inp, obs, lr):
 
 def gen_hist_corr(rng, n):
     for _ in range(n):
-        yield U.rand_history(rng, maxlen=rng.choice([5, 10, 20, 40]), p_invalid=0.15)
+        yield U.rand_history(rng, maxlen=rng.choice([5, 10, 20, 40]), p_invalid=0.15,
+                             alphabets=("default", "default", "permuted", "multi", "case"))
 
 
 def gen_hist_exh(rng, n):
@@ -170,7 +171,8 @@ def judge_history_oracle(inp, obs, lr):
 
 def gen_hist_oracle(rng, n):
     for _ in range(n):
-        yield U.rand_history(rng, maxlen=rng.choice([3, 6, 12, 40]), p_invalid=0.0)
+        yield U.rand_history(rng, maxlen=rng.choice([3, 6, 12, 40]), p_invalid=0.0, conflicts=True,
+                             alphabets=("default", "default", "permuted", "multi", "case", "int"))
 
 
 # ------------------------------------------------------------------ built-in files, table -> automaton
@@ -262,8 +264,7 @@ def run_kbmag(inp):
         autos = [FS.load_builtin(inp["builtin"])]
     else:
         text, labels, transitions, initial = inp["text"], inp["labels"], inp["transitions"], inp["initial"]
-        rec, _ = gap_parse.parse_record(text)
-        autos = [FS._from_gap_record(rec)]
+        autos = []
         fd, path = tempfile.mkstemp(suffix=".wa")
         try:
             with os.fdopen(fd, "w") as fh:
@@ -298,6 +299,34 @@ def judge_kbmag(inp, obs, lr):
         tags.update(quoted=inp["style"]["quoted"], inner_space=inp["style"]["inner"] > 0)
     return {"expected": "loaded automaton = transition table and start state written in the text", "observed": obs, "tags": tags}
 
+
+
+# ------------------------------------------------------------------ renderings outside the verified grammar (known findings)
+def gen_kbmag_exotic(rng, n):
+    kinds = ["interval_spaces", "empty_interval", "crlf"]
+    for i in range(n):
+        nl, ns = rng.choice([1, 2, 3]), rng.choice([1, 2, 3])
+        labels = list("abc")[:nl]
+        transitions = [[rng.randint(0, ns) for _ in labels] for _ in range(ns)]
+        style = {"intervals": True, "quoted": False, "inner": 0.0, "name": "_RWS.wa"}
+        text = None
+        while text is None or not re.search(r"accepting :=\s*\[\d+\.\.\d+\]", text) or "\n" not in text:
+            text = render_kbmag(rng, labels, transitions, [1], style)
+        kind = kinds[i % 3]
+        if kind == "interval_spaces":
+            text = re.sub(r"(accepting :=\s*)\[(\d+)\.\.(\d+)\]", lambda m: "%s[%s%s .. %s%s]" % (m.group(1), rng.choice(["", " "]), m.group(2), m.group(3), rng.choice(["", " "])), text, count=1)
+        elif kind == "empty_interval":
+            text = re.sub(r"(accepting :=\s*)\[(\d+)\.\.(\d+)\]", lambda m: m.group(1) + "[1..0]", text, count=1)
+        else:
+            text = text.replace("\n", "\r\n")
+        yield {"labels": labels, "transitions": transitions, "initial": [1], "text": text, "exotic": kind}
+
+
+def judge_kbmag_exotic(inp, obs, lr):
+    if obs.get("ok"):
+        return None
+    return {"expected": "loaded automaton = transition table and start state written in the text", "observed": obs,
+            "tags": {"exotic": inp["exotic"]}}
 
 
 # ------------------------------------------------------------------ several objects in one process
@@ -551,7 +580,7 @@ CLAUSES = [
            site="fsa.FSA views", budget={"quick": 8000, "thorough": 150000},
            what="same predicate on bounded-exhaustive histories"),
     Clause("kbmag_oracle", "oracle", gen_kbmag, U.bounded(run_kbmag), judge_kbmag,
-           site="fsa.load_kbmag_file / _from_gap_record / load_builtin", budget={"quick": 400, "thorough": 4000},
+           site="fsa.load_kbmag_file / load_builtin", budget={"quick": 400, "thorough": 4000},
            what="random kbmag record texts (tables, alphabets, spacing/newlines, interval syntax, quoted names) and the 18 built-in files: "
                 "loaded edges and start state equal the table in the text (independent regex reading for the built-ins)"),
 ]
@@ -574,6 +603,12 @@ CLAUSES.append(
                 "and enumerators return is mutated in place and the automaton re-examined, no mutable container shared between automata or with "
                 "caller arguments (identity scan); (G3) an unrelated automaton over the same vertex names and labels (and FSA(), built-ins, free "
                 "and derived automata) is built, edited and queried between the steps, in both orders"))
+
+CLAUSES.append(
+    Clause("kbmag_exotic_oracle", "oracle", gen_kbmag_exotic, U.bounded(run_kbmag), judge_kbmag_exotic,
+           site="gap_parse.parse_list / parse_record", budget={"quick": 30, "thorough": 300},
+           what="KNOWN FINDINGS: three renderings that GAP accepts but that lie outside the verified grammar (intervals are exactly [a..b] with "
+                "a <= b, whitespace is blank/tab/newline): spaces inside an interval, the empty interval [1..0], CR LF line ends"))
 
 # character-level parser clauses (text -> record), written by the main session
 from props._c09parse import CLAUSES_PARSE  # noqa: E402
